@@ -52,6 +52,8 @@ type Config struct {
 	ScaleInWatch     bool           `json:"scale_in_watch,omitempty"`
 	// FaultOnlyStatus: faults are drawn only for status writes (and then often)
 	FaultOnlyStatus bool `json:"fault_only_status,omitempty"`
+	// StatusOutage: every status write fails until the chaos phase ends.
+	StatusOutage bool `json:"status_outage,omitempty"`
 	// UnpauseAtQuiesce: the user lifts every pause before the quiesce phase, so
 	// that resumption and convergence after a pause are demanded (C11)
 	UnpauseAtQuiesce bool    `json:"unpause_at_quiesce,omitempty"`
